@@ -229,6 +229,8 @@ func runC19(e *Engine, r *Report) {
 	ruleRestoreRebase(e, r)
 	ruleLogReaderRebase(e, r)
 	ruleTermInMemFirst(e, r)
+	ruleAppliedPair(e, r)
+	ruleAppendSetsRange(e, r)
 }
 
 // blockReaches: is b reachable from a (a != b) in the CFG?
